@@ -65,7 +65,8 @@ type Faults struct {
 	// OnlyWritesFail restricts error injection to writes
 	OnlyWritesFail bool
 	// BaseLatency is added to every request even when faults are disabled
-	BaseLatency time.Duration
+	ReconnectMax time.Duration // calls that waited out a partition resume after a drawn delay up to this
+	BaseLatency  time.Duration
 }
 
 type lease struct {
@@ -277,6 +278,14 @@ func (c *Cluster) request(ctx context.Context, node int, label string, write boo
 			return status.FromContextError(ctx.Err()).Err()
 		case <-heal:
 			simrt.Resume()
+			// the connection comes back after a backoff of its own for every pending call
+			if c.Faults.Enabled && c.Faults.ReconnectMax > 0 {
+				time.Sleep(time.Duration(c.Sim.Choose(int(c.Faults.ReconnectMax/time.Millisecond)+1, "etcd.reconnect")) * time.Millisecond)
+				simrt.Resume()
+				if err := ctx.Err(); err != nil {
+					return status.FromContextError(err).Err()
+				}
+			}
 		}
 	}
 	f := c.Faults
